@@ -5,7 +5,7 @@ import ScyllaVerif.Drive.C02
 
 * `frames <hex>`            — `read_response_frame` in a loop over an in-memory reader holding exactly these bytes;
 * `conn <wc> <op>;…`        — the schedule language of `Drive/C02.lean` (`b<hex>` raw bytes from the server, `x` FIN, …);
-* `ka <wc> <interval> <timeout> <op>;…` — the same with keep-alive on and the extra operation `t<ms>` (virtual time).
+* `ka <wc>/<interval>/<timeout> <op>;…` — the same with keep-alive on and the extra operation `t<ms>` (virtual time).
 -/
 namespace ScyllaVerif.Drive.C10
 open ScyllaVerif.Util ScyllaVerif.FrameStream
@@ -34,13 +34,15 @@ def run (case _impl : String) : String :=
     | none => "bad-case"
   | ["conn", wc, ops] => if wc == "0" || wc == "1" then C02.runConn (C02.splitOps ops) else "bad-case"
   | ["conn", wc] => if wc == "0" || wc == "1" then C02.runConn [] else "bad-case"
-  | ["ka", wc, i, t, ops] =>
-    match i.toNat?, t.toNat? with
-    | some i, some t => if wc == "0" || wc == "1" then C02.runConnKa i t (C02.splitOps ops) else "bad-case"
-    | _, _ => "bad-case"
-  | ["ka", wc, i, t] =>
-    match i.toNat?, t.toNat? with
-    | some i, some t => if wc == "0" || wc == "1" then C02.runConnKa i t [] else "bad-case"
+  | "ka" :: cfg :: rest =>
+    match cfg.splitOn "/", rest with
+    | [wc, i, t], ops =>
+      if ops.length > 1 then "bad-case" else
+      match i.toNat?, t.toNat? with
+      | some i, some t =>
+        if (wc == "0" || wc == "1") && i > 0 && t > 0 then
+          C02.runConnKa i t (C02.splitOps (ops.headD "")) else "bad-case"
+      | _, _ => "bad-case"
     | _, _ => "bad-case"
   | _ => "bad-case"
 
